@@ -1071,3 +1071,116 @@ def bn_export(text):
         fs.append({"rv": str(rv), "parents": [str(p) for p in f.parents], "rows": rows, "d": 1 if det else 10})
     queries = [str(q) for q, n in gp.queries()]
     return {"vars": vs, "factors": fs, "tenths": ok, "query_names": queries}
+
+
+# ------------------------------------------------------------------ C27 / C17 error surfaces
+def run_texts(texts, mode="infer"):
+    """mode 'parse': only parse (iterate the program); 'infer': default inference.  Returns per text outcome class."""
+    import io
+    import contextlib
+    from problog.program import PrologString
+    from problog import get_evaluatable
+    from problog.errors import ProbLogError
+    from .pl import err_site
+    out = []
+    for t in texts:
+        try:
+            with contextlib.redirect_stdout(io.StringIO()):
+                if mode == "parse":
+                    n = 0
+                    for _ in PrologString(t["text"]):
+                        n += 1
+                    out.append({"id": t["id"], "outcome": "ok", "n": n})
+                else:
+                    res = get_evaluatable().create_from(PrologString(t["text"])).evaluate()
+                    out.append({"id": t["id"], "outcome": "ok", "n": len(res)})
+        except ProbLogError as e:
+            out.append({"id": t["id"], "outcome": "problog_error", "error": type(e).__name__})
+        except RecursionError:
+            out.append({"id": t["id"], "outcome": "inconclusive", "error": "RecursionError"})
+        except Exception as e:
+            site, chain = err_site(e)
+            out.append({"id": t["id"], "outcome": "crash", "error": type(e).__name__, "msg": str(e)[:200], "site": site, "chain": chain})
+    return {"results": out}
+
+
+def builtin_signatures():
+    from problog.engine import DefaultEngine
+    e = DefaultEngine()
+    return {"sigs": sorted(str(k) for k in e.get_builtins().keys())}
+
+
+# ------------------------------------------------------------------ C17 print / parse round trip
+def _json_to_problog(t):
+    from problog.logic import Term, Constant, Var
+    k = t["t"]
+    if k == "v":
+        return Var("V%d" % t["n"])
+    if k == "i":
+        return Constant(t["v"])
+    if k == "f":
+        return Constant(t["v"] / 4.0)
+    name = "".join(chr(c) for c in t["c"])
+    if k == "s":
+        return Constant('"%s"' % name)
+    if k == "a":
+        import re
+        if re.match(r"^[a-z][A-Za-z0-9_]*$", name) or name == "[]":
+            return Term(name)
+        return Term("'%s'" % name)
+    args = [_json_to_problog(a) for a in t["a"]]
+    if name == "." and len(args) == 2:
+        return Term(".", *args)
+    from problog.logic import And, Or, Not, Clause
+    if name == "," and len(args) == 2:
+        return And(*args)
+    if name == ";" and len(args) == 2:
+        return Or(*args)
+    if name == "\\+" and len(args) == 1:
+        return Not("\\+", args[0])
+    if name == ":-" and len(args) == 2:
+        return Clause(args[0], args[1])
+    return Term(name, *args)
+
+
+def print_parse(cases):
+    """cases: [{'id', 'text', 'clause'}]: parse the (fully parenthesised) text, print the term with str(), parse again"""
+    from problog.logic import Term
+    from problog.program import PrologString
+    from problog.errors import ProbLogError
+    from . import terms as T
+    from .pl import err_site
+    out = []
+
+    def parse(txt, clause):
+        if clause:
+            cl = list(PrologString(txt + "."))
+            if len(cl) != 1:
+                raise ValueError("parsed into %d clauses" % len(cl))
+            return cl[0]
+        return Term.from_string(txt)
+    for c in cases:
+        r = {"id": c["id"], "stage": "parse1"}
+        try:
+            try:
+                t1 = parse(c["text"], c.get("clause"))
+                r["first"] = T.from_problog(t1, {})
+                r["stage"] = "print"
+                txt = str(t1)
+                r["text"] = txt
+                r["stage"] = "parse2"
+                t2 = parse(txt, c.get("clause"))
+                r["back"] = T.from_problog(t2, {})
+                r["ok"] = 1
+            except ProbLogError as e:
+                r["ok"] = 2
+                r["err"] = "%s: %s" % (type(e).__name__, str(e)[:100])
+        except T.TooLarge:
+            r["skip"] = 1
+        except Exception as e:
+            site, chain = err_site(e)
+            r["crash"] = "%s: %s" % (type(e).__name__, str(e)[:150])
+            r["site"] = site
+            r["error"] = type(e).__name__
+        out.append(r)
+    return {"results": out}
